@@ -1,9 +1,49 @@
-(* C16 — published pots partition the chips into correctly nested side pots. *)
+(* C16 — published pots partition the chips into correctly nested side pots.
+   inputs           : any list of (index, contribution, fold flag), in insertion order, contributions >= 0
+   ll_of inputs     : the level list after the AddContributor calls; get_pots : what GetPots publishes
+   contrib_sum cs a b = sum over ALL players (folded or not) of min(c, b) - min(c, a):
+                      what was put in between level a and level b
+   elig cs fs x     : the non-folded players who contributed at least x, in index order
+   published cs fs lo p : pot p whose predecessor has level lo (0 for the main pot):
+       wager = level - lo, total = contrib_sum lo level,
+       its eligible (= non-folded) entries are exactly elig level, each listed with level - lo,
+       a folded player is listed (with his whole contribution, for display) exactly when lo < contribution
+   published_chain  : every pot is `published` with respect to its predecessor, levels strictly
+                      increase and the eligible sets strictly shrink *)
 From PF Require Import Base ModelPot ProofsPot.
 
-(* the contribution levels behind the published pots are strictly increasing,
-   for every vector of (index, contribution, fold) in any insertion order *)
+Theorem C16_published_pots :
+  forall inputs, nonneg_inputs inputs ->
+    let ll := ll_of inputs in
+    published_chain (ll_contribs ll) (ll_folded ll) 0 (get_pots ll).
+Proof. exact get_pots_published. Qed.
+Print Assumptions C16_published_pots.
+
+Theorem C16_levels_strictly_increasing :
+  forall inputs, nonneg_inputs inputs -> zsorted (map pt_level (get_pots (ll_of inputs))).
+Proof. intros inputs Hn. eapply published_levels_sorted. apply get_pots_published. exact Hn. Qed.
+Print Assumptions C16_levels_strictly_increasing.
+
+(* no chip is created or lost: the totals add up to all chips put in *)
+Theorem C16_totals_add_up :
+  forall inputs, nonneg_inputs inputs ->
+    zsum (map pt_total (get_pots (ll_of inputs))) = zsum (map snd (ll_contribs (ll_of inputs))).
+Proof. exact get_pots_totals. Qed.
+Print Assumptions C16_totals_add_up.
+
+(* the contribution levels behind the pots are strictly increasing (any inputs) *)
 Theorem C16_levels_increasing :
   forall inputs : list (Z * Z * bool), zsorted (map l_level (ll_levels (ll_of inputs))).
 Proof. exact ll_levels_sorted. Qed.
 Print Assumptions C16_levels_increasing.
+
+(* non-vacuity / reading aid: 100,100,50 live and 70 folded (the F8/F9 shape) *)
+Example C16_example :
+  let inputs := [(0, 100, false); (1, 100, false); (2, 50, false); (3, 70, true)] in
+  nonneg_inputs inputs /\
+  map (fun p => (pt_level p, pt_total p, pt_contribs p)) (get_pots (ll_of inputs))
+  = [(50, 200, [(0, 50); (1, 50); (2, 50); (3, 70)]); (100, 120, [(0, 50); (1, 50); (3, 70)])].
+Proof.
+  split; [|vm_compute; reflexivity].
+  intros x Hx. simpl in Hx. repeat (destruct Hx as [<-|Hx]; [simpl; discriminate|]). contradiction.
+Qed.
